@@ -38,15 +38,93 @@ def guard_is_debug(view, bb):
     return False
 
 
-def _release_pairs(eng, cb, memo):
+def _len_params(view, prov, op, depth=0):
+    """parameters whose length / precision (possibly scaled by constants) the operand is; None if anything else feeds it"""
+    if op[0] == "k":
+        return set()
+    if depth > 8:
+        return None
+    out = set()
+    roots = mir.uniq_roots(prov.roots_of_operand(op))
+    if not roots:
+        return None
+    for r in roots:
+        if r.kind == "const":
+            continue
+        if r.kind == "call" and r.site is not None:
+            t = view.blocks[r.site[0]]["term"]
+            seg = mir.last_seg(mir.callee_name(t)) or ""
+            if seg in LEN_SEGS and t["args"]:
+                ps = {x.what for x in prov.roots_of_operand(t["args"][0]) if x.kind == "param"}
+                if not ps:
+                    return None
+                out |= ps
+                continue
+            return None
+        if r.kind == "op" and r.site is not None and r.site[1] != "term":
+            st = view.blocks[r.site[0]]["stmts"][r.site[1]]
+            rv = st[2]
+            k = rv[0]
+            if k == "cast":
+                sub = _len_params(view, prov, rv[2], depth + 1)
+            elif k == "bin":
+                x = _len_params(view, prov, rv[2], depth + 1)
+                y = _len_params(view, prov, rv[3], depth + 1)
+                sub = None if x is None or y is None else x | y
+            elif k == "un" and "PtrMetadata" in str(rv[1]):
+                sub = {x.what for x in prov.roots_of_operand(rv[2]) if x.kind == "param"} or None
+            elif k == "len":
+                sub = {x.what for x in prov.roots_of_place(rv[1]) if x.kind == "param"} or None
+            else:
+                sub = None
+            if sub is None:
+                return None
+            out |= sub
+            continue
+        return None
+    return out
+
+
+def _direct_len_relation(view, prov, bb):
+    """(pa, pb) when the guard ending block bb compares the size of parameter pa with the size of parameter pb directly"""
+    t = view.blocks[bb]["term"]
+    if t["k"] != "switch" or t["op"][0] not in ("c", "m"):
+        return None
+    cur = t["op"][1][0]
+    for _ in range(6):
+        found = None
+        for st in reversed(view.blocks[bb]["stmts"]):
+            if st[0] == "a" and st[1][0] == cur and not st[1][1]:
+                found = st[2]
+                break
+        if found is None:
+            return None
+        if found[0] == "bin" and found[1] in ("Eq", "Ne", "Lt", "Le", "Gt", "Ge"):
+            a = _len_params(view, prov, found[2])
+            b = _len_params(view, prov, found[3])
+            if a and b and len(a) == 1 and len(b) == 1 and a != b:
+                return (next(iter(a)), next(iter(b)))
+            return None
+        if found[0] == "un" and found[2][0] in ("c", "m"):
+            cur = found[2][1][0]
+        elif found[0] == "use" and found[1][0] in ("c", "m"):
+            cur = found[1][1][0]
+        else:
+            return None
+    return None
+
+
+def _release_pairs(eng, cb, memo, facts=None, depth=0):
     """pairs of parameter indices of body cb whose sizes are related by a release-mode abort guard of cb itself"""
     from .c11 import is_debug_assert
-    if cb["id"] in memo:
-        return memo[cb["id"]]
-    memo[cb["id"]] = set()
+    mk = (getattr(facts, "config", None), cb["id"])
+    if mk in memo:
+        return memo[mk]
+    memo[mk] = set()
     view = eng.view(cb["id"])
     dyn = {i for i in range(1, view.argc + 1) if _is_dyn(view.locals[i])}
     out = set()
+    lprov = IterProv(view)
     if len(dyn) >= 2:
         summ, evs = eng.analyze(cb["id"], collect=True)
         for e in evs:
@@ -54,12 +132,32 @@ def _release_pairs(eng, cb, memo):
                 continue
             if is_debug_assert(e.info) or guard_is_debug(view, e.bb[0]):
                 continue
-            ps = {int(l[1:].split("#")[0].split(".")[0]) for l in e.labels if l.startswith("@")} & dyn
-            for i in ps:
-                for j in ps:
-                    if i < j:
-                        out.add((i, j))
-    memo[cb["id"]] = out
+            # only a guard that compares the two sizes with each other protects the caller (an assertion such as
+            # `out.len() == a.len() + b.len()` mentions both lengths without relating them)
+            rel = _direct_len_relation(view, lprov, e.bb[0])
+            if rel and rel[0] in dyn and rel[1] in dyn:
+                out.add((min(rel), max(rel)))
+    # guards of the functions cb itself calls (a shared `assert_fits(&self, rhs)` helper), mapped back to cb's parameters
+    if facts is not None and depth < 3:
+        prov = IterProv(view)
+        for bi, t in view.calls():
+            if view.blocks[bi]["cleanup"]:
+                continue
+            res = t["f"].get("res")
+            cc = facts.bodies.get(res) if res else None
+            if cc is None or cc["id"] == cb["id"]:
+                continue
+            inner = _release_pairs(eng, cc, memo, facts, depth + 1)
+            if not inner:
+                continue
+            roots = [{r.what for r in prov.roots_of_operand(a) if r.kind == "param"} & dyn for a in t["args"]]
+            for (i, j) in inner:
+                if i - 1 < len(roots) and j - 1 < len(roots):
+                    for x in roots[i - 1]:
+                        for y in roots[j - 1]:
+                            if x != y:
+                                out.add((min(x, y), max(x, y)))
+    memo[mk] = out
     return out
 
 
@@ -75,7 +173,7 @@ def _callee_release_guards(facts, eng, view, dyn, _memo={}):
         cb = facts.bodies.get(res) if res else None
         if cb is None:
             continue
-        pairs = _release_pairs(eng, cb, _memo)
+        pairs = _release_pairs(eng, cb, _memo, facts, 0)
         if not pairs:
             continue
         roots = []
